@@ -18,6 +18,7 @@ from mcx.seams import patched
 KINDS = ('bonds', 'dihedrals')
 TEMPLATES = ('plain', 'comment', 'empty', 'two', 'line', 'blank', 'ifdef')
 HASH_TEMPLATES = ('hashtrail', 'hashline')
+EMPTY_TEMPLATES = ('nocontent', 'onlycomment', 'onlypp')
 HEADER = ['; generated for the check', ';', '#include "forcefield.itp"', '']
 BOND_POOL = ((1, 2), (2, 3), (3, 4), (1, 3), (2, 4), (1, 4), (1, 2), (3, 4))
 
@@ -53,6 +54,13 @@ def decorate(rows, tpl, tag):
         return ['%s ; #%d of %s' % (ln, i + 1, tag) for i, ln in enumerate(lines)]
     if tpl == 'indentpp':
         return [lines[0], '  #ifdef OLD_' + tag.upper(), '\t#include "old.itp"', '  #endif'] + lines[1:]
+    # section occurrences WITHOUT any content line (legal: e.g. a [ dihedrals ] that only includes a file)
+    if tpl == 'nocontent':
+        return ['; propers of %s are kept in a separate file' % tag, '#include "%s_extra.itp"' % tag]
+    if tpl == 'onlycomment':
+        return ['; %s: none' % tag]
+    if tpl == 'onlypp':
+        return ['#include "%s_extra.itp"' % tag]
     if tpl == 'hashline':
         return [lines[0], ';#ifdef OLD_' + tag.upper(), '; #include "old.itp"'] + lines[1:]
     raise ValueError(tpl)
@@ -157,7 +165,8 @@ class C16(Check):
                   '(quick, plus length 5 with <= 2 sections off the plain template) / <= 5 (thorough, all) over moleculetype, '
                   'atoms, bonds*, dihedrals* x 7 line templates per section x final newline or not) are written and re-read '
                   'twice by the real code, plus two small families on moleculetype, atoms, bonds, dihedrals: comment text that '
-                  'begins with "#" (trailing and comment-only) and indented directives; a coverage statement over that '
+                  'begins with "#" (trailing and comment-only) and indented directives, and section occurrences without any content '
+                  'line (comment and/or #include only) at every subset of positions in every tail of up to 3 sections; a coverage statement over that '
                   'finite space')
     level_note = ('trusted: the reference reader mcx/ref/itp.py (self-tested). Reading of the statement: an item is a content '
                   'line (tokens + its trailing comment), a non-empty comment-only line or a preprocessor line; blank lines '
@@ -203,6 +212,12 @@ class C16(Check):
                 else:
                     u.append({'k': 'gen', 'secs': secs, 'pre': [], 'full': full})
         u.append({'k': 'hash'})
+        for t in EMPTY_TEMPLATES:
+            for ln in (1, 2, 3):
+                u.append({'k': 'empty', 'tpl': t, 'len': ln})
+        self.bounds['content_free_section_templates'] = {
+            'templates': list(EMPTY_TEMPLATES), 'tails': 'every sequence of 1..3 sections over bonds, dihedrals',
+            'placement': 'every non-empty subset of the tail positions; the other sections plain or with comments'}
         return u
 
     def cases(self, unit, tier, seed):
@@ -212,6 +227,13 @@ class C16(Check):
             secs, pre = unit['secs'], unit['pre']
             for v in template_vectors(len(secs) - len(pre), unit['full']):
                 yield {'k': 'gen', 'secs': secs, 'tpl': [TEMPLATES[i] for i in pre + v]}
+        elif unit['k'] == 'empty':
+            ln = unit['len']
+            for tail in itertools.product(KINDS, repeat=ln):
+                for mask in range(1, 1 << ln):
+                    for other in ('plain', 'comment'):
+                        tpl = ['plain', 'plain'] + [unit['tpl'] if mask >> i & 1 else other for i in range(ln)]
+                        yield {'k': 'gen', 'secs': ['moleculetype', 'atoms'] + list(tail), 'tpl': tpl, 'empty': 1}
         else:
             secs = ['moleculetype', 'atoms', 'bonds', 'dihedrals']
             for t in HASH_TEMPLATES:
@@ -254,7 +276,8 @@ class C16(Check):
                 R.violation(sig, case, '%s: %s' % (case['file'], det))
             return
         secs, tpls = case['secs'], case['tpl']
-        prefix = ('comment-text-starting-with-hash/' if case.get('hash') else
+        prefix = ('section-without-content-lines/' if case.get('empty') else
+                  'comment-text-starting-with-hash/' if case.get('hash') else
                   'indented-directive/' if case.get('indent') else '')
         variants = [(case['hdr'], case['nl'])] if 'hdr' in case else [(0, 1), (1, 1), (0, 0), (1, 0)]
         repeated = len(set(secs)) < len(secs)
@@ -272,7 +295,7 @@ class C16(Check):
                     sigs = []
             nontrivial = repeated or bool(hdr) or not nl or any(t != 'plain' for t in tpls)
             R.case(cdesc, nontrivial=nontrivial, outcome=outcome,
-                   cls='hash' if case.get('hash') else 'indent' if case.get('indent') else 'gen/L%d/%s' % (len(secs), 'repeated' if repeated else 'single'))
+                   cls='empty-section' if case.get('empty') else 'hash' if case.get('hash') else 'indent' if case.get('indent') else 'gen/L%d/%s' % (len(secs), 'repeated' if repeated else 'single'))
             for sig, det in sigs:
                 R.violation(prefix + sig, cdesc, det)
 
